@@ -64,6 +64,8 @@ REQUIRED_COUNTERS = {
     'p4_inert_comparisons': 1000,
     'lists_pairs': 10000,
     'lists_triples': 10000,
+    'c07w_robot_messages_checked': 60,
+    'c07w_options_in_effect_checked': 20,
 }
 SHARD_TIMEOUT = {'quick': 900, 'thorough': 3600}
 
@@ -239,6 +241,11 @@ class Ctx:
         except HandlerEntered as err:
             exc = 'entered:' + err.name
         except Exception as err:
+            if 'Stub' in str(err):
+                # the code under test needs something the stub job does not
+                # provide: a limitation of this harness, never a verdict
+                raise RuntimeError('stub job cannot follow the code under '
+                                   'test: %s: %s' % (type(err).__name__, err))
             exc = type(err).__name__
         own = job.settings.maps[0]
         settings = {k: (sorted(v) if isinstance(v, (set, frozenset)) else v)
@@ -515,6 +522,10 @@ def pick(idx, modulus, shard):
 def run_shard(spec, acc):
     tier, shard, n, seed = (spec['tier'], spec['shard'], spec['nshards'],
                             spec['seed'])
+    if not spec.get('limit'):
+        # system-level companion: long-lived instance, several PR authors
+        from vf.world import c07_world
+        c07_world.run(spec, acc, 1 if tier == 'quick' else 8)
     ctx = Ctx(acc)
     limit = spec.get('limit')          # timing slices only
 
@@ -608,6 +619,9 @@ def finalize(acc, tier, seed):
 
 
 def replay(w, acc):
+    if w.get('world'):
+        from vf.world import c07_world
+        return c07_world.replay(w, acc)
     ctx = Ctx(acc)
     grant = w.get('grant', 'none')
     ctx.set_grant(grant)
